@@ -324,3 +324,121 @@ if __name__ == '__main__':
     for k, v in unk.items():
         for s in v:
             print('(* unknown in %s: %s *)' % (k, s))
+
+
+# ---- the same terms as s-expressions (the form in which the extracted model receives a program) ---------------
+def _tokens(term):
+    return re.findall(r"[A-Za-z_][A-Za-z_0-9]*|[()\[\];,]", term)
+
+
+class _P:
+    def __init__(self, term, codes):
+        self.t = _tokens(term)
+        self.i = 0
+        self.c = codes          # dict: action / flag / fname / pat / exn name -> code
+
+    def peek(self):
+        return self.t[self.i] if self.i < len(self.t) else None
+
+    def eat(self, tok=None):
+        x = self.peek()
+        if tok is not None and x != tok:
+            raise Unsupported('term parser: expected %r, got %r at %d' % (tok, x, self.i))
+        self.i += 1
+        return x
+
+    def pstmt(self):
+        if self.peek() == '(':
+            self.eat('(')
+            s = self.stmt()
+            self.eat(')')
+            return s
+        return self.stmt()
+
+    def action(self):
+        if self.peek() == '(':
+            self.eat('(')
+            self.eat('RunHooks')
+            p = self.eat()
+            self.eat(')')
+            return self.c['action']['RunHooks ' + p]
+        return self.c['action'][self.eat()]
+
+    def cond(self):
+        if self.peek() == '(':
+            self.eat('(')
+            c = self.cond()
+            self.eat(')')
+            return c
+        k = self.eat()
+        if k == 'CTrue':
+            return [0]
+        if k == 'COther':
+            return [3]
+        if k == 'CFlag':
+            return [1, self.c['flag'][self.eat()]]
+        if k == 'CNot':
+            return [2, self.cond()]
+        raise Unsupported('term parser: condition %r' % k)
+
+    def stmt(self):
+        k = self.eat()
+        if k == 'Skip':
+            return [0]
+        if k == 'Return':
+            return [7]
+        if k == 'CallParam':
+            return [11]
+        if k == 'Act':
+            return [1, self.action()]
+        if k == 'Seq':
+            return [2, self.pstmt(), self.pstmt()]
+        if k == 'Try':
+            body = self.pstmt()
+            self.eat('[')
+            hs = []
+            while self.peek() != ']':
+                self.eat('(')
+                p = self.c['pat'][self.eat()]
+                self.eat(',')
+                h = self.stmt()
+                self.eat(')')
+                hs.append([p, h])
+                if self.peek() == ';':
+                    self.eat(';')
+            self.eat(']')
+            return [3, body, hs, self.pstmt(), self.pstmt()]
+        if k == 'If':
+            return [4, self.cond(), self.pstmt(), self.pstmt()]
+        if k == 'Assign':
+            return [5, self.c['flag'][self.eat()]]
+        if k == 'Raise':
+            if self.peek() == 'None':
+                self.eat()
+                return [6]
+            self.eat('(')
+            self.eat('Some')
+            e = self.c['exn'][self.eat()]
+            self.eat(')')
+            return [6, e]
+        if k == 'Loop':
+            return [8, self.pstmt()]
+        if k == 'ForLoop':
+            return [9, self.pstmt()]
+        if k == 'Call':
+            return [10, self.c['fname'][self.eat()]]
+        raise Unsupported('term parser: statement %r' % k)
+
+
+def term_to_sx(term, codes):
+    p = _P(term, codes)
+    s = p.stmt()
+    if p.peek() is not None:
+        raise Unsupported('term parser: trailing tokens in %r' % term[:60])
+    return s
+
+
+def generate_terms(repo):
+    """[(name, coq term)] for every translated function"""
+    return [(name, translate(repo, rel, q, in_init=name.endswith('_init') and q == 'AppResponse.close')[0])
+            for name, rel, q in FUNCTIONS]
